@@ -105,7 +105,7 @@ class HistHarness(symex.Harness):
     """history: list of calls, a call = list of (key, query_index, text)."""
 
     def __init__(self, system, pm, weakly, N, M, K, history, parallel=False, may_hang=False, level="L2",
-                 label=None, kw=None, shapes=None, known_rule=None):
+                 label=None, kw=None, shapes=None, known_rule=None, layers=None):
         ops.setup()
         self.system, self.pm, self.weakly = system, pm, weakly
         self.N, self.M, self.K = N, M, K
@@ -113,13 +113,14 @@ class HistHarness(symex.Harness):
         self.kw = kw or {}
         self.sb = ops.SymBase(N, M, K, shapes)
         self.known_rule = known_rule      # (finding id, description, regex every message must match)
+        self.layers = layers              # slice: conditional i sits in tolerance layer layers[i]
         A, B, QA, QB = self.sb.tables()
         self.spec = specs.BaseSpec(A, B)
         self.QA, self.QB = QA, QB
         self.eta = [Z.Int("xeta%d" % i) for i in range(M)]
-        self.label = label or "history %s/%s %s N=%d M=%d %s%s: %s" % (
+        self.label = label or "history %s/%s %s N=%d M=%d %s%s%s: %s" % (
             system, pm or "-", "ext" if weakly else "strict", N, M, "parallel" if parallel else "sequential",
-            "+hang" if may_hang else "", history)
+            "+hang" if may_hang else "", (" slice-layers=%s" % (layers,)) if layers else "", history)
         self._exp = {}
         self.reset()
 
@@ -141,7 +142,11 @@ class HistHarness(symex.Harness):
 
     def mk_engine(self):
         tt.set_universe(self.N)
-        return symex.Engine(max_decisions=8000)
+        pre = []
+        if self.layers:
+            for i, L in enumerate(self.layers):
+                pre.append(Z.And(self.spec.placed[i], self.spec.layer[i] == specs.iv(L)))
+        return symex.Engine(assumptions=pre, max_decisions=8000)
 
     def known_preds(self):
         return [(self.known_rule[0], self.known_rule[1], None)] if self.known_rule else []
@@ -193,7 +198,8 @@ class HistHarness(symex.Harness):
                 for _, r in df.iterrows():
                     rows.append((r["index"], r["result"], r["inference_timed_out"], r["preprocessing_timed_out"], r["query"]))
                 out.append(("rows", rows))
-            return ("hist", out, fake.leftover(), list(fake.hung), list(eng.notes.get("giveups", [])))
+            self.after_calls(eng)
+            return ("hist", out, fake.leftover(), list(fake.hung), list(eng.notes.get("giveups", [])), list(eng.notes.get("marks", [])), list(eng.notes.get("clock_log", [])))
         finally:
             inf_mod.mp = real_mp
             l2.deactivate()
@@ -201,6 +207,12 @@ class HistHarness(symex.Harness):
 
     def call_kw(self, ci):
         return dict(self.kw)
+
+    def after_calls(self, eng):
+        pass
+
+    def extra_checks(self, res, msgs):
+        pass
 
     # expected answer of query qi (z3 Bool), or None for c-inference (handled separately)
     def expected(self, qi):
@@ -294,6 +306,7 @@ class HistHarness(symex.Harness):
                 if m is not None:
                     msgs.append("call %d: query %s answered %s, the definition says otherwise" % (ci, text, ans))
                     model = model or m
+        self.extra_checks(res, msgs)
         if msgs and self.known_rule is not None:
             import re
             if all(re.search(self.known_rule[2], m_) for m_ in msgs):
@@ -310,7 +323,7 @@ class HistHarness(symex.Harness):
     def _viol(self, eng, model, res, msg):
         m = model or eng.vc(Z.BoolVal(True))
         if m is not None and len(self.viol) < 20:
-            self.viol.append(dict(res=["hist", msg, _plain(res[1:2])], hung=(list(res[3]) if len(res) > 3 else []), giveups=(list(res[4]) if len(res) > 4 else []), vars={str(v): concretise.model_int(m, v) for v in self.sb.vars}))
+            self.viol.append(dict(res=["hist", msg, _plain(res[1:2])], hung=(list(res[3]) if len(res) > 3 else []), giveups=(list(res[4]) if len(res) > 4 else []), clock=(list(res[6]) if len(res) > 6 else None), vars={str(v): concretise.model_int(m, v) for v in self.sb.vars}))
 
     # replay: the same history on the real stack (sequential or with real processes)
     def replay(self, cand):
@@ -323,7 +336,12 @@ class HistHarness(symex.Harness):
             a = concretise.formula_tree(self.sb.side("A", pos), lv)
             base.append([pos + 1, c, a, "(%s|%s)" % (concretise.tree_to_text(c), concretise.tree_to_text(a))])
         steps = [{"op": "manager", "id": "m", "base": base, "system": self.system, "pmaxsat": self.pm or "rc2", "weakly": self.weakly}]
+        use_clock = isinstance(self, BudgetHarness)
+        if use_clock:
+            steps.append({"op": "clock", "jumps": [list(j) for j in (cand.get("clock") or [])]})
         for ci, call in enumerate(self.history):
+            if use_clock:
+                steps.append({"op": "clock_mark"})
             ql = []
             for key, qi, text in call:
                 ql.append([key, concretise.formula_tree(self.sb.side("QB", qi), lv), concretise.formula_tree(self.sb.side("QA", qi), lv), text])
@@ -338,11 +356,16 @@ class HistHarness(symex.Harness):
                 off = sum(len(c) for c in self.history[:ci])
                 st["hang"] = [key for j, (key, qi, text) in enumerate(call) if off + j < len(flags) and flags[off + j]]
             steps.append(st)
+        if use_clock:
+            steps.append({"op": "clock_mark"})
         job = {"atoms": list(CTX.atom_names), "steps": steps}
         out = concretise.run_real(job, timeout=600)
         rec = dict(harness=self.label, tables=vars_, job=job, real=out, symbolic_result=cand["res"])
         if "steps" not in out:
             return "error", rec
+        marks = [st_.get("ok") for st_, js in zip(out["steps"], steps) if js["op"] == "clock_mark"]
+        inf_steps = [st_ for st_, js in zip(out["steps"], steps) if js["op"] == "inference"]
+        out = {"steps": [out["steps"][0]] + inf_steps}
         # judge with the same assertions, concretely
         s = Z.Solver()
         for v in self.sb.vars:
@@ -376,6 +399,11 @@ class HistHarness(symex.Harness):
                 exp = self.expected_concrete(vars_, qi)
                 if exp is not None and ans != exp:
                     msgs.append("call %d: query %s answered %s, definition says %s" % (ci, text, ans, exp))
+        if use_clock and all(isinstance(m_, int) for m_ in marks):
+            calls = []
+            for st_ in out["steps"][1:]:
+                calls.append(("rows", st_["ok"]) if "ok" in st_ else ("exc",) + tuple(st_["exc"]))
+            self.extra_checks(("hist", calls, [], [], [], marks), msgs)
         rec["observed"] = [st.get("ok", st.get("exc")) for st in out["steps"][1:]]
         rec["expected"] = "every row carries its own key/text and the answer of the definition"
         rec["assertion"] = msgs
@@ -414,6 +442,7 @@ class FakeClock:
         self.now = 100.0
         self.left = jumps
         self.reads = 0
+        self.log = []
 
     def tick(self):
         self.reads += 1
@@ -426,6 +455,7 @@ class FakeClock:
                         size = sz
                         break
                 self.now += size
+                self.log.append((self.reads, size))
 
     def perf_counter(self):
         self.tick()
@@ -448,10 +478,39 @@ class BudgetHarness(HistHarness):
         self.label += " budgets=%s jumps<=%d%s" % (self.budgets, jumps, " solver-may-give-up" if give_up else "")
 
     def call_kw(self, ci):
+        if symex.ENG is not None and getattr(self, "_clock", None) is not None:
+            symex.ENG.notes.setdefault("marks", []).append(self.jumps - self._clock.left)
         return dict(self.budgets[ci]) if ci < len(self.budgets) else {}
+
+    def after_calls(self, eng):
+        eng.notes.setdefault("marks", []).append(self.jumps - self._clock.left)
+        eng.notes["clock_log"] = list(self._clock.log)
 
     def flag_allowed(self, ci):
         return True
+
+    def extra_checks(self, res, msgs):
+        """A per-query budget is per query: in a sequential call that only sets
+        inference_timeout, one clock jump can expire the deadline of at most the query under
+        evaluation, so the number of rows flagged 'inference timed out' cannot exceed the
+        number of jump events that happened during that call."""
+        if self.parallel or len(res) < 6:
+            return
+        marks = res[5]
+        for ci, got in enumerate(res[1]):
+            b = self.budgets[ci] if ci < len(self.budgets) else {}
+            if got[0] != "rows" or ci + 1 >= len(marks):
+                continue
+            flagged = sum(1 for row in got[1] if row[2])
+            if set(b) <= {"inference_timeout"}:
+                jumps_in_call = marks[ci + 1] - marks[ci]
+                # a solver give-up ('unknown' under the budget's timeout) is an expiry event too
+                allowed = (jumps_in_call + sum(1 for g in res[4] if g)) if b else 0
+                if any(row[3] for row in got[1]):
+                    continue
+                if flagged > allowed:
+                    msgs.append("call %d: %d rows flagged as timed out although only %d budget expiry event(s) happened during the call (per-query budget %s)"
+                                % (ci, flagged, jumps_in_call, b))
 
     def prepare(self, eng):
         import inference.deadline as dl
